@@ -14,8 +14,9 @@ from common import Rng, mix
 _WORKER = {}
 
 
-def _worker_init(prop_name, tier, seed, root):
+def _worker_init(prop_name, tier, seed, root, stop=None):
     import importlib
+    _WORKER["stop"] = stop
     mod = importlib.import_module("props." + prop_name)
     _WORKER["prop"] = mod.PROP
     _WORKER["tier"] = tier
@@ -33,6 +34,9 @@ def _get_ctx():
 
 
 def _worker_run(index):
+    if _WORKER.get("stop") is not None and _WORKER["stop"].is_set():
+        # the batch's wall cap was reached: cases not yet started are skipped, cases in flight finish
+        return {"index": index, "skipped_by_wall_cap": True}
     prop = _WORKER["prop"]
     tier = _WORKER["tier"]
     case_seed = mix(_WORKER["seed"], prop.id, index)
@@ -63,17 +67,22 @@ def run_property(prop, tier, seed, nproc=None, count=None, wall_cap=None):
     import tempfile
     root = tempfile.mkdtemp(prefix=f"verif-{prop.id}-")
     try:
-        with ctx.Pool(nproc, initializer=_worker_init, initargs=(prop.name, tier, seed, root)) as pool:
+        stop = ctx.Event()
+        with ctx.Pool(nproc, initializer=_worker_init, initargs=(prop.name, tier, seed, root, stop)) as pool:
             it = pool.imap_unordered(_worker_run, range(count), chunksize=1)
             for res in it:
+                if res.get("skipped_by_wall_cap"):
+                    continue
                 if "harness_error" in res:
                     harness_errors.append(res)
                 else:
                     results.append(res)
-                if wall_cap and time.time() - t0 > wall_cap:
+                if wall_cap and time.time() - t0 > wall_cap and not stopped_early:
+                    # Stop starting new cases, but let the ones in flight finish (each is bounded by its
+                    # own step / CPU / time-out caps): a case that hangs is exactly the one that must not
+                    # be thrown away when time runs out.
                     stopped_early = True
-                    pool.terminate()
-                    break
+                    stop.set()
     finally:
         shutil.rmtree(root, ignore_errors=True)
     results.sort(key=lambda r: r["index"])
